@@ -160,6 +160,23 @@ func GenBatch(r *Rng, o GenOpts) Batch {
 				d.Fields = append(d.Fields, genField(r, o, fi))
 			}
 		}
+		if r.Chance(5) {
+			// a stored array: many values of one field, each with its index path as array positions
+			fi := r.Intn(o.NFields)
+			names[FieldNames[fi]] = true
+			k := 2 + r.Intn(14)
+			nested := r.Chance(3)
+			for e := 0; e < k; e++ {
+				f := genField(r, o, fi)
+				f.Stored = true
+				f.Val = r.Bytes(r.Intn(4))
+				f.AP = []uint64{uint64(e)}
+				if nested {
+					f.AP = append(f.AP, uint64(r.Intn(3)))
+				}
+				d.Fields = append(d.Fields, f)
+			}
+		}
 		if r.Chance(3) && len(names) > 0 {
 			var ns []string
 			for n := range names {
@@ -295,4 +312,54 @@ func (b Batch) Stats() BatchStats {
 		}
 	}
 	return s
+}
+
+var ThesNames = []string{"syn1", "syn2", "thesaurus"}
+var SynVocab = []string{"happy", "glad", "joyful", "big", "large", "huge", "b", "cat", "日本", "x"}
+
+// AddSynDocs mixes synonym documents into a batch (W6: >= 1 synonym per definition, non-empty strings,
+// thesaurus names distinct from ordinary field names).
+func AddSynDocs(r *Rng, b Batch, idbase string) Batch {
+	nth := 1 + r.Intn(len(ThesNames))
+	n := 1 + r.Intn(4)
+	for i := 0; i < n; i++ {
+		id := fmt.Sprintf("%ssyn%02d", idbase, i)
+		d := Doc{Fields: []Field{IDField(id)}}
+		k := 1 + r.Intn(2)
+		used := map[string]bool{}
+		for j := 0; j < k; j++ {
+			th := ThesNames[r.Intn(nth)]
+			if used[th] {
+				continue
+			}
+			used[th] = true
+			f := Field{Name: th, Typ: 's'}
+			nd := 1 + r.Intn(3)
+			seenT := map[string]bool{}
+			for q := 0; q < nd; q++ {
+				term := SynVocab[r.Intn(len(SynVocab))]
+				if seenT[term] {
+					continue
+				}
+				seenT[term] = true
+				sd := SynDef{Term: term}
+				ns := 1 + r.Intn(3)
+				seenS := map[string]bool{}
+				for w := 0; w < ns; w++ {
+					s := SynVocab[r.Intn(len(SynVocab))]
+					if seenS[s] {
+						continue
+					}
+					seenS[s] = true
+					sd.Syns = append(sd.Syns, s)
+				}
+				f.Syn = append(f.Syn, sd)
+			}
+			d.Fields = append(d.Fields, f)
+		}
+		// insert at a random position so that thesauri interleave with ordinary documents
+		pos := r.Intn(len(b) + 1)
+		b = append(b[:pos], append(Batch{d}, b[pos:]...)...)
+	}
+	return b
 }
